@@ -154,7 +154,9 @@ func VerifChunk(chunkSize uint32, fn func([]byte, int64) (int, error), p []byte,
 type VerifPool struct{ p pool }
 
 // VerifNewPool returns a pool allocator.
-func VerifNewPool(start, limit uint64) *VerifPool { return &VerifPool{p: pool{start: start, limit: limit}} }
+func VerifNewPool(start, limit uint64) *VerifPool {
+	return &VerifPool{p: pool{start: start, limit: limit}}
+}
 
 // Get is pool.Get.
 func (v *VerifPool) Get() (uint64, bool) { return v.p.Get() }
